@@ -99,6 +99,8 @@ func (env *specEnv) eval(e Expr) SVal {
 			return SVal{T: tTrue}
 		}
 		return SVal{T: tFalse}
+	case *EReal:
+		return SVal{T: realLit(x.S), GoT: types.Typ[types.Float64]}
 	case *EStr:
 		return SVal{T: c.strLit(x.V)}
 	case *ENil:
@@ -480,6 +482,9 @@ func (env *specEnv) evalCall(x *ECall) SVal {
 			return SVal{T: sCap(v.T), GoT: types.Typ[types.Int]}
 		}
 		specFail("cap of sort %s", v.T.Sort)
+	case "maxfloat64":
+		n, _ := new(big.Float).SetFloat64(1.79769313486231570814527423731704356798070e+308).Int(nil)
+		return SVal{T: realLit(n.String() + ".0"), GoT: types.Typ[types.Float64]}
 	case "deref":
 		// deref(p): the value a pointer to a non-struct cell points to (*p)
 		v := arg(0)
